@@ -157,3 +157,61 @@ Proof.
     inversion H; subst root'. apply Main; [reflexivity|exact Hseg].
   - inversion H.
 Qed.
+
+(* ---------- directory objects *)
+Lemma lookp_parent : forall p t x, p <> [] -> lookp t p = L_node x -> is_dir_look (lookp t (removelast p)).
+Proof.
+  induction p as [|s r IH]; intros t x Hne H; [congruence|].
+  destruct t as [bl a|a k]; [cbn in H; discriminate|].
+  destruct r as [|s2 r2].
+  - cbn. exists a, k. reflexivity.
+  - assert (R : removelast (s :: s2 :: r2) = s :: removelast (s2 :: r2)) by reflexivity. rewrite R.
+    cbn [lookp] in *. destruct (kfind k s) as [c|]; [|discriminate]. apply (IH c x); [discriminate|exact H].
+Qed.
+
+Lemma adel_in : forall l k kv, In kv (adel l k) -> In kv l.
+Proof.
+  induction l as [|[j v] l IH]; intros k kv H; [exact H|]. cbn [adel] in H.
+  destruct (String.eqb j k); [right; apply (IH k); exact H|].
+  destruct H as [H|H]; [left; exact H|right; apply (IH k); exact H].
+Qed.
+
+Lemma filter_nil_in {A} (f : A -> bool) l : (forall x, In x l -> f x = false) -> filter f l = [].
+Proof. induction l as [|x l IH]; intros H; cbn [filter]; [reflexivity|]. rewrite (H x (or_introl eq_refl)). apply IH. intros y Hy. apply H. right. exact Hy. Qed.
+
+Definition dir_attrs (meta a : attrs) : attrs :=
+  ("content-type", "application/x-directory") :: ("etag", emptyMD5) ::
+  (meta_attrs meta ++ adel (adel (filter (fun kv => negb (is_meta (fst kv))) a) "etag") "content-type").
+
+Lemma user_meta_of_dir_put meta a : user_meta (dir_attrs meta a) = sort_attrs meta.
+Proof.
+  unfold user_meta, dir_attrs. f_equal. cbn [filter fst].
+  change (is_meta "content-type") with false. change (is_meta "etag") with false. cbv iota.
+  rewrite filter_app, filter_meta_attrs, filter_nil_in.
+  - rewrite app_nil_r. apply strip_meta_attrs.
+  - intros kv H. apply adel_in in H. apply adel_in in H. apply filter_In in H. destruct H as [_ H]. apply negb_true_iff in H. exact H.
+Qed.
+
+(* C01 for directory objects: an acknowledged PutObject of a key ending in "/" is read back as the empty object with the
+   directory content type, the ETag of the empty payload and exactly the supplied user metadata — also when it replaces an
+   earlier upload of the same directory object, whatever that one's metadata were *)
+Theorem put_dir_then_get : forall root b key blob len ctype meta root',
+  ends_slash key = true -> segs key <> [] ->
+  step root (PutObject b key blob len ctype meta) = (root', O_ok) ->
+  snd (step root' (GetObject b key)) = O_get None emptyMD5 "application/x-directory" (sort_attrs meta).
+Proof.
+  intros root b key blob len ctype meta root' Hs Hseg H. cbn [step] in H.
+  destruct (valid_object_name key) eqn:V; cbn [negb] in H; [|inversion H].
+  destruct (bucket_ok root b) eqn:B; cbn [negb] in H; [|inversion H].
+  rewrite Hs in H. destruct (negb (Nat.eqb len 0)); [inversion H|].
+  match type of H with context [mkdir_all ?f ?t ?q] => destruct (mkdir_all f t q) as [r1|] eqn:M end; [|inversion H].
+  destruct (lookp r1 (b :: segs key)) as [[bl a|a k]| |] eqn:L; try (inversion H; fail).
+  assert (ER : root' = setp r1 (b :: segs key) (ND (dir_attrs meta a) k)) by (inversion H; reflexivity). clear H. subst root'.
+  assert (L' : lookp (setp r1 (b :: segs key) (ND (dir_attrs meta a) k)) (b :: segs key) = L_node (ND (dir_attrs meta a) k)).
+  { apply lookp_setp; [discriminate|]. eapply lookp_parent; [discriminate|exact L]. }
+  assert (B' : bucket_ok (setp r1 (b :: segs key) (ND (dir_attrs meta a) k)) b = true).
+  { destruct (segs key) as [|s r] eqn:S; [congruence|]. apply (lookp_through_bucket _ _ _ _ _ L'). }
+  revert L' B'. generalize (setp r1 (b :: segs key) (ND (dir_attrs meta a) k)) as R. intros R L' B'.
+  cbn [step]. rewrite V. cbn [negb]. rewrite B'. cbn [negb]. rewrite L', Hs. cbn [snd].
+  rewrite user_meta_of_dir_put. reflexivity.
+Qed.
